@@ -535,6 +535,13 @@ fn c03_configs() -> Vec<Vec<String>> {
     v.push(NAME_POOL[..5].iter().map(|s| s.to_string()).collect());
     v.push(NAME_POOL[..5].iter().rev().map(|s| s.to_string()).collect());
     v.push(NAME_POOL[3..8].iter().map(|s| s.to_string()).collect());
+    // the same name registered more than once (the later registration replaces the earlier one; the
+    // name is still one interface): adjacent and with other interfaces in between
+    let n = |i: usize| NAME_POOL[i].to_string();
+    v.push(vec![n(0), n(0)]);
+    v.push(vec![n(0), n(1), n(0)]);
+    v.push(vec![n(2), n(0), n(1), n(1), n(2)]);
+    v.push(vec![n(3), n(4), n(5), n(3), n(6), n(4), n(3)]);
     v
 }
 
@@ -676,7 +683,8 @@ pub fn c03_h_spaces(tier: Tier) -> Vec<Space> {
                 let mut names: Vec<String> = Vec::new();
                 for _ in 0..k {
                     let n = rng.pick(NAME_POOL).to_string();
-                    if !names.contains(&n) {
+                    // now and then the same name is registered again
+                    if !names.contains(&n) || rng.chance(1, 4) {
                         names.push(n);
                     }
                 }
@@ -738,6 +746,56 @@ pub fn c04_h_spaces(tier: Tier) -> Vec<Space> {
             gen: Box::new(move |idx, _| {
                 let s = alphabet::stream_of(&cfg, &[ow[idx as usize]], "o");
                 Case::H(HCase::plain(&cfg, &s))
+            }),
+        });
+    }
+    // oneway calls to methods that upgrade the connection (the handler calls to_upgraded() and then
+    // replies): still no reply; what follows belongs to the upgraded protocol
+    {
+        let cfg = cfg.clone();
+        // generated? x upgrade flag present? x more flag? x handler shape x with/without a neighbour before x payload
+        let size = 2 * 2 * 2 * 3 * 2 * 2;
+        spaces.push(Space {
+            name: "H.oneway.upgrading-method",
+            size,
+            exhaustive: true,
+            gen: Box::new(move |idx, _| {
+                let mut i = idx;
+                let generated = i % 2 == 1;
+                i /= 2;
+                let upflag = i % 2 == 1;
+                i /= 2;
+                let more = i % 2 == 1;
+                i /= 2;
+                let mode = (i % 3) as u8 + 1;
+                i /= 3;
+                let neighbour = i % 2 == 1;
+                i /= 2;
+                let payload = i % 2 == 1;
+                let mut c = cfg.clone();
+                c.upgrade_mode = mode;
+                let mut s = Vec::new();
+                if neighbour {
+                    s.extend(alphabet::stream_of(&c, &[Kind(Base::Echo, Flags::NONE)], "o"));
+                }
+                let mut req = alphabet::upgrade_request(&c, generated, "ow-up");
+                let o = req.as_object_mut().unwrap();
+                o.insert("oneway".into(), json!(true));
+                if !upflag {
+                    o.remove("upgrade");
+                }
+                if more {
+                    o.insert("more".into(), json!(true));
+                }
+                s.extend(frame(&req));
+                if payload {
+                    s.extend_from_slice(b"x\nEnd\n");
+                }
+                let mut h = HCase::plain(&c, &s);
+                if idx % 3 == 0 {
+                    h.cuts = cuts_for_depth(&s, 1);
+                }
+                Case::H(h)
             }),
         });
     }
@@ -815,11 +873,18 @@ pub fn c05_h_spaces(tier: Tier) -> Vec<Space> {
     for l in 0..=maxlen {
         size += pow(ops.len() as u64, l);
     }
-    let flagsets = [Flags::NONE, Flags::MORE, Flags::ONEWAY, Flags {
-        more: Some(true),
-        oneway: Some(true),
-        upgrade: None,
-    }];
+    // `more` / `oneway` absent, true, and spelled out as false
+    let flagsets = [
+        Flags::NONE,
+        Flags::MORE,
+        Flags::ONEWAY,
+        Flags { more: Some(true), oneway: Some(true), upgrade: None },
+        Flags { more: Some(false), oneway: None, upgrade: None },
+        Flags { more: Some(false), oneway: Some(true), upgrade: None },
+        Flags { more: Some(true), oneway: Some(false), upgrade: Some(false) },
+        Flags { more: Some(false), oneway: Some(false), upgrade: Some(false) },
+    ];
+    let nflags = flagsets.len() as u64;
     let mut spaces = Vec::new();
     {
         let cfg = cfg.clone();
@@ -828,8 +893,8 @@ pub fn c05_h_spaces(tier: Tier) -> Vec<Space> {
             size: size * flagsets.len() as u64,
             exhaustive: true,
             gen: Box::new(move |idx, _| {
-                let f = flagsets[(idx % 4) as usize];
-                let mut i = idx / 4;
+                let f = flagsets[(idx % nflags) as usize];
+                let mut i = idx / nflags;
                 let mut len = 0u32;
                 loop {
                     let block = pow(ops.len() as u64, len);
@@ -1256,10 +1321,11 @@ pub fn plan_for(prop: &str, tier: Tier) -> Option<Plan> {
         "C04" => {
             let mut sp = c04_h_spaces(tier);
             sp.extend(crate::ksim::c04_spaces(tier));
+            sp.extend(crate::lsim::c04_l_spaces(tier));
             sp.extend(crate::lsim::c04_k2_spaces(tier));
             let mut p = h_plan(
                 sp,
-                "H: every request kind with oneway:true (alone and with more:true) alone, and at every position of every sequence up to length 3 with neighbours from a 4-kind alphabet, pipelined and one per handle call (complete), plus seeded random oneway-rich sequences; K1: the real client against a scripted server (every pattern of oneway()/call() up to 6 operations, 1..3 threads); K2: a real MethodCall client against the real listen loop over the simulated socket, every pattern of oneway()/call() up to 5 (quick) / 6 (thorough) operations over seven request kinds, plus random mixes of call / more / oneway from 1..3 real clients beside a raw peer. Oracle: no reply bytes for a oneway request (reply stream aligned with the non-oneway requests, attribution by token), client call after oneway returns its own token.",
+                "H: every request kind with oneway:true (alone and with more:true) alone, and at every position of every sequence up to length 3 with neighbours from a 4-kind alphabet, pipelined and one per handle call (complete), oneway calls to methods that upgrade the connection (hand-written and generated, with / without the upgrade and more flags, three handler shapes), plus seeded random oneway-rich sequences; L: raw oneway-rich streams through the real listen loop; K1: the real client against a scripted server (every pattern of oneway()/call() up to 6 operations, 1..3 threads); K2: a real MethodCall client against the real listen loop over the simulated socket, every pattern of oneway()/call() up to 5 (quick) / 6 (thorough) operations over seven request kinds, plus random mixes of call / more / oneway from 1..3 real clients beside a raw peer. Oracle: no reply bytes for a oneway request (reply stream aligned with the non-oneway requests, attribution by token), client call after oneway returns its own token.",
                 lv_expl,
             );
             p.real.extend(crate::ksim::REAL_K);
@@ -1273,7 +1339,7 @@ pub fn plan_for(prop: &str, tier: Tier) -> Option<Plan> {
             sp.extend(crate::ksim::c05_spaces(tier));
             let mut p = h_plan(
                 sp,
-                "H: every script over {set_continues(true), set_continues(false), reply, reply_error, reply-ignoring-the-result, reply_error-ignoring-the-result} up to length 4 (quick) / 5 (thorough) x request flags {none, more, oneway, more+oneway}, followed by a normal request (complete), plus seeded random longer scripts with followers, cuts and short writes. Oracle: wire equals the model (continues only when more was asked; a gated reply writes nothing) and every reply call returned CallContinuesMismatch exactly when gated. K: scripted server reply streams (k continues, then result or error) against the real client iterator, followed by further calls.",
+                "H: every script over {set_continues(true), set_continues(false), reply, reply_error, reply-ignoring-the-result, reply_error-ignoring-the-result} up to length 4 (quick) / 5 (thorough) x request flags {none, more, oneway, more+oneway, more:false, more:false+oneway, more with the other flags spelled out as false, all three false}, followed by a normal request (complete), plus seeded random longer scripts with followers, cuts and short writes. Oracle: wire equals the model (continues only when more was asked; a gated reply writes nothing) and every reply call returned CallContinuesMismatch exactly when gated. K: scripted server reply streams (k continues, then result or error) against the real client iterator, followed by further calls.",
                 lv_expl,
             );
             p.real.extend(crate::ksim::REAL_K);
